@@ -51,6 +51,10 @@ class Canon:
             lo, hi = self.canon(S[2][0]), self.canon(S[2][1])
             val = pos if lo == ('k', 0) else ('bin', 'Add', lo, pos)
             return val, [('sub', hi, lo)]
+        if S[0] in ('p', 'v') and self.fn is not None and self.fn.local_ty(S[1]).startswith('core::ops::range::Range<'):
+            # a `Range<usize>` value iterated directly (`for i in rows`): element = rows.start + position, rows.len() iterations
+            lo = ('fld', S, 'start')
+            return ('bin', 'Add', lo, pos), [('len', S)]
         if S[0] == 'call':
             name = S[1]
             if name.endswith(ROWS_ITER) and len(S[2]) == 1:
